@@ -51,6 +51,15 @@ func (s *scripted) setCap(node string, c *plugintypes.NodeDeployCapacity) {
 	}
 }
 
+// CalculateRemap answers for every workload (also the bound ones) with its own parameter.
+func (s *scripted) CalculateRemap(_ context.Context, _ string, ws map[string]plugintypes.WorkloadResource) (*plugintypes.CalculateRemapResponse, error) {
+	resp := &plugintypes.CalculateRemapResponse{EngineParamsMap: map[string]plugintypes.EngineParams{}}
+	for id := range ws {
+		resp.EngineParamsMap[id] = plugintypes.EngineParams{"x0-flag": true}
+	}
+	return resp, nil
+}
+
 func (s *scripted) CalculateRealloc(context.Context, string, plugintypes.WorkloadResource, plugintypes.WorkloadResourceRequest) (*plugintypes.CalculateReallocResponse, error) {
 	return &plugintypes.CalculateReallocResponse{}, nil
 }
